@@ -457,11 +457,9 @@ func (a *asset) generateTimelineEntries(repID string, wt wrapTimes, atoMS int) s
 		mediaTimescale: uint32(rep.MediaTimescale),
 	}
 
-	ato := uint64(atoMS * rep.MediaTimescale / 1000)
-
 	// The availabilityTimeOffset may reach into following loops, so fold it into the wrap count
 	loopDur := uint64(rep.duration())
-	relStartTime := uint64(wt.startRelMS*rep.MediaTimescale/1000) + ato
+	relStartTime := uint64((wt.startRelMS + atoMS) * rep.MediaTimescale / 1000)
 	if loopDur > 0 && relStartTime >= loopDur {
 		wt.startWraps += int(relStartTime / loopDur)
 		relStartTime %= loopDur
@@ -482,7 +480,7 @@ func (a *asset) generateTimelineEntries(repID string, wt wrapTimes, atoMS int) s
 		wt.startWraps = 0
 	}
 
-	relNowTime := uint64(wt.nowRelMS*rep.MediaTimescale/1000) + ato
+	relNowTime := uint64((wt.nowRelMS + atoMS) * rep.MediaTimescale / 1000)
 	if loopDur > 0 && relNowTime >= loopDur {
 		wt.nowWraps += int(relNowTime / loopDur)
 		relNowTime %= loopDur
